@@ -105,9 +105,10 @@ Example sign_nonvacuous :
   exists kvs w old env',
     toy_env = CTag 107 (CMap kvs) /\ unsigned_input kvs w old /\ wf toy_env /\ pynormal toy_env
     /\ sign_envelope toy_keystore toy_ecdsa toy_ed toy_ed 3 toy_env (s2b "ec") 256 a_es256 None act_error = Ok (env', 4%nat)
-    /\ blen (ser env') = blen (ser toy_env) + 83.
+    /\ blen (ser env') = blen (ser toy_env) + 82.
 Proof.
   eexists _, _, _, _. split; [reflexivity|]. split.
   - split; [reflexivity|]. split; [vm_compute; reflexivity|]. split; [repeat constructor|vm_compute; reflexivity].
-  - split; [vm_compute; intuition discriminate|]. split; [vm_compute; intuition congruence|]. split; vm_compute; reflexivity.
+  - split; [vm_compute; repeat split; try discriminate; reflexivity|].
+    split; [vm_compute; repeat split; try discriminate; reflexivity|]. split; [vm_compute; reflexivity|]. vm_compute. reflexivity.
 Qed.
